@@ -46,8 +46,8 @@ def jobs(tier):
         d = DIM[c]
         axes = [a for a in range(d) if not (a == 0 and c in RADIAL)]
         cfgs = [()] + [((a, 'both'),) for a in axes]
-        if axes:
-            cfgs += [((axes[-1], 'low'),), ((axes[-1], 'high'),)]
+        for a in axes:                       # single-flag configurations of every admissible axis
+            cfgs += [((a, 'low'),), ((a, 'high'),)]
         if tier != 'quick':
             for combo in itertools.product(('none', 'low', 'high', 'both'), repeat=len(axes)):
                 cfg = tuple((a, m) for a, m in zip(axes, combo) if m != 'none')
